@@ -184,6 +184,14 @@ def run(ctx):
     if cases:
         c = cases[len(cases) // 2]
         ctx.sample({"document": rb.render_doc(c["doc"], 0), "sources": hb.SOURCES, "handlers": ["native", "lxml"]})
+    # fixed instances (whatever the seed draws below): union members whose descendants carry attributes
+    xctx = XmlContext()
+    for k, obj in enumerate((zoo.UnionModels(m=zoo.Amount(value=3, note=zoo.Leaf(value="t", flag=True)),
+                                             ms=[zoo.Amount(value=4, note=zoo.Leaf(value="u", flag=False)), zoo.Label(value="x y")]),
+                             zoo.UnionModels(ms=[zoo.Label(value="one"), zoo.Amount(value=0, note=zoo.Leaf(value="", flag=True))]))):
+        ctx.case(("zoo-fixed", k))
+        writers_agree(ctx, obj, xctx, {"model": type(obj).__name__, "obj": repr(obj)[:1500], "mixed": True})
+        handlers_agree(ctx, rb.render(obj, xctx, "native"), type(obj), xctx, {"key": ("zoo-fixed", k), "model": type(obj).__name__})
     # the zoo through the three serializers
     xctx = XmlContext()
     for k, obj in enumerate(zoo.instances(ctx.seed + 8, ctx.pick(150, 10**7), roots=[c for c in zoo.ROOTS if c is not zoo.Mixed])):
